@@ -33,7 +33,7 @@ PROFILES = {
     "C17": {"g1": 1.0, "r": {"helpers": 8}},
     "C18": {"w": {"reopen": 0, "clear": 0}},
     "C19": {"g1": 0.35, "r": {"metrics": 6, "global": 2}},
-    "C20": {"g1": 0.9, "w": {"addlinks": 8, "batch": 5, "create": 4, "rmprefix": 1.5, "delete": 1.5, "clear": 0.8}, "r": {"mostlinked": 8}},
+    "C20": {"g1": 0.9, "w": {"addlinks": 8, "batch": 5, "create": 4, "rmprefix": 1.5, "delete": 1.5, "clear": 1.8}, "r": {"mostlinked": 8}},
 }
 BUDGET = {"quick": (150, 22), "thorough": (2500, 35)}
 # the translation tie (gen/gen_helpers.py -> lean/Gen): property -> theorems about the GENERATED helper functions
